@@ -46,4 +46,20 @@ def opRegister (j : Json) : Json :=
     Json.mkObj [("dict", Json.arr (r.kv.map fun kv => Json.arr #[Json.str kv.1, Json.str kv.2]).toArray)]
   | _, _, _ => errJson "parse"
 
+/-- op `descend`: the dictionary reaching the bottom of a path of placements; `levels` = [{table, defaults}] from the top down;
+the top dictionary is `Solver.update_params` of the root (defaults < call values) -/
+def opDescend (j : Json) : Json :=
+  let lv : Option (List (Table × Dict String)) :=
+    match j.getObjVal? "levels" with
+    | .ok (.arr xs) => xs.toList.mapM fun x =>
+        match (x.getObjVal? "table").toOption >>= parsePairsStr, (x.getObjVal? "defaults").toOption >>= parsePairsStr with
+        | some t, some c => some (t, (⟨c⟩ : Dict String))
+        | _, _ => none
+    | _ => none
+  match (j.getObjVal? "defaults").toOption >>= parsePairsStr, (j.getObjVal? "args").toOption >>= parsePairsStr, lv with
+  | some d, some a, some levels =>
+    let r := descend (solverParams (⟨d⟩ : Dict String) ⟨a⟩ ⟨[]⟩) levels
+    Json.mkObj [("dict", Json.arr (r.kv.map fun kv => Json.arr #[Json.str kv.1, Json.str kv.2]).toArray)]
+  | _, _, _ => errJson "parse"
+
 end Driver
